@@ -12,12 +12,23 @@ def run(tier, seed):
     vlib.tlc_check(chk, "SyncLifo: tagged-pointer LIFO protocol, exhaustive (ABA-freedom, conservation)", os.path.join(VERIF, "spec", "data", "SyncLifo.tla"),
                    os.path.join(VERIF, "spec", "data", "SyncLifoMC.cfg"), timeout=900)
     optsets = [("nes=%d" % n, "mem=%d" % m) for m in (0, 1, 2, 3) for n in (0, 1, 2)]
+    # tasklet descriptors freed by an external thread, and live ones next to memory-pool stacks (tiny buckets)
+    optsets += [("nes=%d" % n, "mem=%d" % m, "desc=1") for m in (2, 3) for n in (0, 1, 2)]
     vlib.history_check(chk, "d_mem", ["stacks"], "H_Alloc", quick, seed, nseeds_quick=100, nseeds_thorough=1500, optsets=optsets, free_runs=100,
                        what="stack ranges overlap / smaller than requested / misaligned / user stack not used as given / stack contents damaged / allocation ledger unbalanced",
                        env={"ABTV_BUDGET": "4000000"})
     vlib.history_check(chk, "d_mem", ["mpool"], "H_Alloc", quick, seed, nseeds_quick=1500, nseeds_thorough=20000, optsets=[()], free_runs=2000,
                        what="memory pool handed out a block twice / to two owners, misaligned, damaged, or pages leaked",
                        env={"ABTV_BUDGET": "4000000"})
+    # free-running churn: plain (non-atomic) local-pool state can only be raced by real threads
+    exe = vlib.build_driver("d_mem")
+    jobs = [dict(exe=exe, scn="churn", seed0=seed * 1000000 + 700001 + 10 * k, count=5 if quick else 20, opts=("rounds=%d" % (2000 if quick else 6000),), mode="free", env={}, timeout=600)
+            for k in range(4 if quick else 12)]
+    runs = vlib.sweep(jobs)
+    chk.evaluations += len(runs)
+    done, abnormal = vlib.classify_runs(chk, runs, stuck_is_violation=True)
+    vlib.validate_runs(chk, done, os.path.join(SPEC, "H_AllocTrace.tla"), os.path.join(SPEC, "H_AllocTrace.cfg"), what="a descriptor was handed out while still in use (churn)")
+    chk.extra["churn_runs"] = {"done": len(done), "abnormal": len(abnormal), "moved_between_streams": sum(1 for r in done for e in r if e.get("e") == "Churn" and e.get("moved"))}
     chk.assumptions += ["addresses are compared as ranks (order-isomorphic small integers); sizes and alignments exactly",
                         "a free() of a pointer the allocation ledger never handed out is reported as crash:invalid-free",
                         "huge-page allocation modes are not available in the sandbox: ABT_MEM_LP_ALLOC in {mmap_rp, malloc} only",
